@@ -288,6 +288,21 @@ fn bad_presentations(cx: &mut Cx, f: BlindPres, l: usize, m: usize, verifier: No
         if c == Some(l) || (c.is_none() && l == 0) { continue; }
         let mut g = f.clone(); g.l = c; deliver_pres(cx, verifier, g, "L_int_corrupt".into(), ideal.clone());
     }
+    // Mallory: index ALIASING across the two lists.  With two disclosed committed messages c_a (at
+    // j_a) and c_b (at j_b): c_a is claimed through the signer-side list at position L + 1 + j_b and
+    // c_b through the committed list at position j_a -- both claims are false, but the multiset of
+    // merged positions and the multiset of messages are the honest ones
+    if let (Some(l), true) = (f.l, lnorm(&f.dcmsgs).len() >= 2) {
+        let (dc, dcm) = (inorm(&f.dcidx).to_vec(), lnorm(&f.dcmsgs).to_vec());
+        let (ja, jb, ca, cb) = (dc[0], dc[1], dcm[0].clone(), dcm[1].clone());
+        let mut g = f.clone();
+        let mut di = g.didx.take().unwrap_or_default(); let mut dm = g.dmsgs.take().unwrap_or_default();
+        di.push(l + 1 + jb); dm.push(ca);
+        let mut ci = dc.clone(); let mut cm = dcm.clone();
+        ci.remove(1); cm.remove(1); cm[0] = cb; ci[0] = ja;
+        g.didx = Some(di); g.dmsgs = Some(dm); g.dcidx = Some(ci); g.dcmsgs = Some(cm);
+        if dcm[0] != dcm[1] { deliver_pres(cx, verifier, g, "forged:index_aliasing_across_the_two_lists".into(), ideal.clone()); }
+    }
     for which in 0..2u8 {
         let n = if which == 0 { lnorm(&f.dmsgs).len() } else { lnorm(&f.dcmsgs).len() };
         for lf in ListFault::pick(&mut cx.ch, n, 60, 15) {
@@ -371,6 +386,18 @@ fn bad_requests(cx: &mut Cx, s: Sess, cwp: Bytes, issuer: NodeId, holder: NodeId
         let ext: Vec<u8> = match cls { 0 => vec![0; 32], 1 => { let mut e = bytes_for(cx.run_seed, b"cwpext", 0, 32); e[0] &= 0x3f; e } _ => cwp[cwp.len() - 32..].to_vec() };
         b.extend_from_slice(&ext);
         send(cx, &s, b, "cwp_extend_scalars", &ideal);
+    }
+    // ... by whole blocks that are NOT canonical scalars (r, r + 4, all ones), inserted after s^,
+    // in front of the challenge, and appended: a decoder that skips what it cannot parse
+    {
+        const R_BE: [u8; 32] = [0x73, 0xed, 0xa7, 0x53, 0x29, 0x9d, 0x7d, 0x48, 0x33, 0x39, 0xd8, 0x08, 0x09, 0xa1, 0xd8, 0x05, 0x53, 0xbd, 0xa4, 0x02, 0xff, 0xfe, 0x5b, 0xfe, 0xff, 0xff, 0xff, 0xff, 0x00, 0x00, 0x00, 0x01];
+        let mut r4 = R_BE; r4[31] += 4;
+        let blocks = [R_BE.to_vec(), r4.to_vec(), vec![0xff; 32]];
+        let blk = &blocks[cx.ch.choose("non_canonical_block", 3) as usize];
+        for (pos_name, at) in [("after_s^", 80usize), ("before_challenge", cwp.len() - 32), ("appended", cwp.len())] {
+            let mut b = cwp.clone(); b.splice(at..at, blk.iter().copied());
+            send(cx, &s, b, &format!("cwp_extend_non_canonical_block:{pos_name}"), &ideal);
+        }
     }
     if cwp.len() > 112 { let mut b = cwp.clone(); b.drain(80..112); send(cx, &s, b, "cwp_drop_response", &ideal); }
     { let mut b = cwp.clone(); let ins = cwp[48..80].to_vec(); b.splice(80..80, ins); send(cx, &s, b, "cwp_insert_response", &ideal); }
